@@ -2451,11 +2451,16 @@ def rule_pair1(ctx):
         base = None
         if isinstance(core, ast.Call) and isinstance(core.func, ast.Attribute) \
                 and core.func.attr == "swapaxes" and isinstance(
-                    core.func.value, ast.Name):
+                    core.func.value, ast.Name) \
+                and core.func.value.id not in ("np", "numpy"):
             base = core.func.value.id
         elif isinstance(core, ast.Attribute) and core.attr in ("T", "H") \
                 and isinstance(core.value, ast.Name):
             base = core.value.id
+        elif isinstance(core, ast.Call) and dotted(core.func) in (
+                "np.swapaxes", "np.transpose", "np.moveaxis") and core.args \
+                and isinstance(core.args[0], ast.Name):
+            base = core.args[0].id        # the function form of the transpose
         if base is None:
             continue
         src = None
@@ -3200,12 +3205,18 @@ def _is_gram(e, param):
     if len(leaves) != 3:
         return False
     first, last = leaves[0], leaves[-1]
-    return isinstance(first, ast.Name) and first.id == param \
-        and isinstance(last, ast.Call) \
-        and isinstance(last.func, ast.Attribute) \
-        and last.func.attr in ("swapaxes", "transpose") \
-        and isinstance(last.func.value, ast.Name) \
-        and last.func.value.id == param
+    if not (isinstance(first, ast.Name) and first.id == param
+            and isinstance(last, ast.Call)):
+        return False
+    # P.swapaxes(-1, -2) / P.transpose(..) / np.swapaxes(P, -1, -2) / P.T
+    if isinstance(last.func, ast.Attribute) \
+            and last.func.attr in ("swapaxes", "transpose") \
+            and isinstance(last.func.value, ast.Name) \
+            and last.func.value.id == param:
+        return True
+    return dotted(last.func) in ("np.swapaxes", "np.transpose",
+                                 "np.moveaxis") and last.args \
+        and isinstance(last.args[0], ast.Name) and last.args[0].id == param
 
 
 HOMDIV_ROWS = [
